@@ -24,8 +24,18 @@ use crate::memory::simd_ops::{fast_fill, fast_prefetch};
 use crossbeam_utils::CachePadded;
 use std::alloc::{Layout, alloc, dealloc};
 use std::ptr::NonNull;
+#[cfg(not(zipora_verif))]
 use std::sync::atomic::{AtomicU32, AtomicU64, Ordering};
+#[cfg(zipora_verif)]
+use crate::verif::sync::atomic::{AtomicU32, AtomicU64};
+#[cfg(zipora_verif)]
+use std::sync::atomic::Ordering;
+#[cfg(not(zipora_verif))]
 use std::sync::{Arc, Mutex};
+#[cfg(zipora_verif)]
+use std::sync::Arc;
+#[cfg(zipora_verif)]
+use crate::verif::sync::Mutex;
 use std::thread;
 use std::time::Duration;
 
